@@ -118,7 +118,7 @@ def main():
                      "kind_free_text": "deterministic simulation with fault injection: seeded discrete-event world (TLS/QUIC peers, TCP/UDP paths, capture tap, clock, container, key channel) around the real TLExport run in a fork server"}],
         "checks": checks,
         "not_applicable": na,
-        "notes": "VERIF_SEED selects the batch; VERIF_TIER/--tier selects quick or thorough; VERIF_BUDGET_S bounds the thorough search per property (default 900 s); VERIF_WORKERS the lane count (default 16); VERIF_REPO the tree under test (default /repo).",
+        "notes": "VERIF_SEED selects the batch; VERIF_TIER/--tier selects quick or thorough; VERIF_BUDGET_S bounds the thorough search per property (default 900 s); VERIF_WORKERS the lane count (default 16); VERIF_REPO the tree under test (default /repo); VERIF_HUGE=1 adds the opt-in 65536-frame conversation to the thorough tier of C06 (about five CPU minutes per export).",
     }
     with open(os.path.join(HERE, "MANIFEST.json"), "w") as f:
         json.dump(man, f, indent=1)
